@@ -66,37 +66,49 @@ def _config(observables, precision=None, reorder=False):
                                  optimize_qubit_ordering=bool(reorder), num_gpus_to_use=0, **kw)
 
 
-_PROBE = {}
+class _CallbackProbe:
+    """Wraps one observable of the run's config: records the norm of the state object the backend hands to it (for
+    runs with badly prepared atoms that is the padded full-register state built inside fill_results)."""
+
+    def __init__(self, inner, log):
+        self.__dict__["_inner"] = inner
+        self.__dict__["_log"] = log
+
+    def __call__(self, config, t, state, hamiltonian, result):
+        self._log.append((float(t), float(state.norm())))
+        return self._inner(config, t, state, hamiltonian, result)
+
+    def __getattr__(self, name):
+        return getattr(self._inner, name)
 
 
-def norm_probe(evaluation_times):
-    """An observable that records the norm of the state object the backend hands to the observables (for runs with
-    badly prepared atoms that is the padded full-register state built inside fill_results), at every fill."""
-    if "cls" not in _PROBE:
-        from pulser.backend import Observable
-        try:
-            from pulser.backend.observable import AggregationMethod
-            extra = {"default_aggregation_method": AggregationMethod.SKIP}
-        except ImportError:      # pulser-core < 1.9
-            extra = {}
+class probed_fills:
+    """Rebinds emu_mps.mps_backend.create_impl: the created implementation is kept (.impl) and every observable
+    callback is wrapped by _CallbackProbe (.log = [(fractional time, norm of the state handed over)]).  The config
+    itself is untouched before construction, so qubit reordering stays enabled."""
 
-        class NormProbe(Observable):
-            def __init__(self, evaluation_times):
-                super().__init__(evaluation_times=evaluation_times, **extra)
+    def __init__(self):
+        self.log, self.impl = [], None
 
-            @property
-            def _base_tag(self):
-                return "norm_probe"
+    def __enter__(self):
+        import emu_mps.mps_backend as mb
+        self.mb, self.orig = mb, mb.create_impl
 
-            def apply(self, *, config, state, **kwargs):
-                return float(state.norm())
+        def create(data, config):
+            impl = self.orig(data, config)
+            opts = impl.config._backend_options
+            opts["observables"] = tuple(_CallbackProbe(o, self.log) for o in opts["observables"])
+            self.impl = impl
+            return impl
 
-        _PROBE["cls"] = NormProbe
-    return _PROBE["cls"](evaluation_times)
+        mb.create_impl = create
+        return self
 
+    def __exit__(self, *a):
+        self.mb.create_impl = self.orig
 
-def fill_norms(res, et):
-    return [float(res.get_result("norm_probe", t)) for t in et]
+    def worst(self):
+        return max((abs(nv - 1.0) for _, nv in self.log), default=0.0)
 
 
 def good_indices(case):
@@ -535,23 +547,21 @@ def run_trajectories(case, prob, ops, check_states):
     bad, reorder = case.get("bad"), case.get("reorder", False)
     et = [0.5, 1.0]
     total = prob["times"][-1]
-    et_all = [t / total for t in prob["times"][1:]]
+    et_all = [t / total for t in prob["times"][1:]]      # an observable at every step: every fill is probed
     acc = np.zeros((2, n))
     acc2 = np.zeros((2, n))
     problems = []
     pyrandom.seed(case["seed"])
     for m in range(M):
-        obs = [Occupation(evaluation_times=et)]
-        if m < check_states:
-            obs.append(norm_probe(et_all))
-        res = emu_mps.MPSBackend._run_from_sequence_data(_seqdata(prob, ops, d, bad), _config(obs, reorder=reorder))
+        with probed_fills() as pf:
+            res = emu_mps.MPSBackend._run_from_sequence_data(
+                _seqdata(prob, ops, d, bad),
+                _config([Occupation(evaluation_times=et_all if m < check_states else et)], reorder=reorder))
         o = np.array([[float(x) for x in res.get_result("occupation", t)] for t in et])
         if (o < -1e-9).any() or (o > 1 + 1e-9).any() or not np.isfinite(o).all():
             problems.append(("occupation outside [0,1]", m, o.tolist()))
-        if m < check_states:
-            nv = fill_norms(res, et_all)
-            if max(abs(x - 1.0) for x in nv) > 1e-9:
-                problems.append(("state handed to the observables is not normalised (norms at the fills)", m, nv))
+        if pf.worst() > 1e-9 or len(pf.log) < (len(et_all) if m < check_states else 2):
+            problems.append(("state handed to the observables is not normalised at a fill (time, norm)", m, pf.log))
         acc += o
         acc2 += o * o
     mean = acc / M
@@ -610,6 +620,9 @@ def det_case(ctx, case):
     ops = noise_ops(case["noise"], d)
     k = len(ops)
     # chain site s of the real run holds atom perm[s]; the well-prepared ones, in chain order:
+    # (minimize_bandwidth draws torch.randperm samples: seed torch identically before the probe and before the run)
+    import torch
+    torch.manual_seed(case["seed"])
     perm = [int(x) for x in create_impl(_seqdata(full_prob, ops, d, bad),
                                         _config([], reorder=reorder)).qubit_permutation]
     chain = [good.index(a) for a in perm if a in good]   # chain site -> position in the reference register
@@ -638,34 +651,25 @@ def det_case(ctx, case):
     if wj is not None:
         wj = chain_weights(wj)
     proxy = RandProxy(uniforms=[u1] if u1 is not None else [], choice_index=choice)
-    impl_holder = {}
-    import emu_mps.mps_backend as mb
-    orig_create = mb.create_impl
-
-    def create(data, config):
-        impl_holder["impl"] = orig_create(data, config)
-        return impl_holder["impl"]
-
     total = full_prob["times"][-1]
     et_all = [t / total for t in full_prob["times"][1:]]
-    mb.create_impl = create
+    torch.manual_seed(case["seed"])
     try:
-        with rebound_random(proxy):
+        with rebound_random(proxy), probed_fills() as pf:
             res = emu_mps.MPSBackend._run_from_sequence_data(
                 _seqdata(full_prob, ops, d, bad),
-                _config([Occupation(evaluation_times=[1.0]), norm_probe(et_all)], precision=1e-8, reorder=reorder))
+                _config([Occupation(evaluation_times=et_all)], precision=1e-8, reorder=reorder))
     except Exception as ex:
         ctx.violation(f"emu-mps raised on a scripted trajectory: {ex!r}", {"case": case, "finding_key": "e2e-raises"})
         return None
-    finally:
-        mb.create_impl = orig_create
-    norms = fill_norms(res, et_all)
-    if max(abs(x - 1.0) for x in norms) > 1e-9:
-        worst_i = int(np.argmax([abs(x - 1.0) for x in norms]))
-        ctx.violation(f"the state handed to the observables at t={et_all[worst_i]:.3f} has norm {norms[worst_i]:.6f} "
-                      f"(not normalised); bad atoms {bad}", {"case": case, "norms": norms,
-                                                             "finding_key": "fill-not-normalised"})
-    impl = impl_holder["impl"]
+    if [int(x) for x in pf.impl.qubit_permutation] != perm:
+        return {"skipped": "qubit ordering of the run differs from the probed one"}   # harness inconsistency, no verdict
+    if pf.worst() > 1e-9 or len(pf.log) != len(et_all):
+        tw, nw = max(pf.log, key=lambda x: abs(x[1] - 1.0), default=(None, None))
+        ctx.violation(f"the state handed to the observables at t={tw} has norm {nw} (not normalised), "
+                      f"{len(pf.log)} fills probed of {len(et_all)}; bad atoms {bad}",
+                      {"case": case, "fills": pf.log, "finding_key": "fill-not-normalised"})
+    impl = pf.impl
     occ = np.array([float(x) for x in res.get_result("occupation", 1.0)])
     occ_ref = np.zeros(n_full)          # badly prepared atoms stay in |g>
     occ_ref[good] = occ_vec(psi_ref, n, d)
@@ -752,11 +756,16 @@ def falsifier_stage(ctx):
         ctx.count_case({"kind": "det", "noise": c["noise_kind"], "n": c["n"], "bad": c.get("bad"),
                         "reorder": c.get("reorder", False), "u_frac": c["u_frac"],
                         "choice": c["choice"], "result": r}, nontrivial=True)
-        if r:
+        if r and "skipped" in r:
+            njump_hist["skipped"] = njump_hist.get("skipped", 0) + 1
+        elif r:
             njump_hist[r["njumps"]] = njump_hist.get(r["njumps"], 0) + 1
             for k, v in r.items():
                 if k not in ("njumps", "u1", "choice"):
                     worst_det[k] = max(worst_det.get(k, 0.0), v)
+    nskip = njump_hist.get("skipped", 0)
+    ctx.obligation("harness:scripted runs use the probed qubit ordering", nskip * 4 <= max(1, len(det)),
+                   f"{nskip} of {len(det)} scripted trajectories gave no verdict", kind="harness")
     ntests = sum(2 * c["n"] for c in stat)
     delta = FWER / max(1, ntests)
     worst = 0.0
